@@ -11,9 +11,20 @@
 (*    sat/vb, turned into the request's MaxFeeRate by SweepReq) below/above *)
 (*    the budget rate, change above / below dust with and without a         *)
 (*    required output, an input with unconfirmed-parent info (parent paying *)
-(*    nothing / a rate inside the ramp), every mempool / publish answer,    *)
-(*    every block pattern.  Every request is SweepReq(config, input set):   *)
-(*    what UtxoSweeper.sweep has to build.                                  *)
+(*    nothing / a rate inside the ramp), an input of a custom channel (aux  *)
+(*    extra output + extra budget), every mempool / publish answer, every   *)
+(*    block pattern, a third-party spend / the confirmation of the          *)
+(*    monitored tx at any block.  Every request is SweepReq(config, input   *)
+(*    set): what UtxoSweeper.sweep has to build.                            *)
+(*  - estimator / deadline domain: the grids contain an ending rate BELOW   *)
+(*    the relay fee (Ends 200 < Relay 253; MaxVbs 1 = 250 sat/kw), conf     *)
+(*    targets on both sides of 1008 (SweepFeeMCWide.cfg: 1007, 1008, 1009,  *)
+(*    1011, 2016) and the publisher with a far deadline                     *)
+(*    (SweepFeePubMCFar.cfg: deadline 1009 blocks away, heights at both     *)
+(*    ends - MCFarHeights; configured maxima 1 / 2 / 400 sat/vb; the        *)
+(*    network accepts every tx there: with a width of 1008 every refusal    *)
+(*    would add one retry per position - 7.5 M states and growing were      *)
+(*    measured - and the retry logic is covered by SweepFeePubMC.cfg).      *)
 EXTENDS SweepFee
 
 CONSTANTS Relay, Ends, Sopts, Ests, Cts, ConfSet, \* fee function grid (ConfSet = {}: all conf targets 0..max+1)
@@ -25,21 +36,26 @@ Dec(S) == {IF x = 0 THEN -1 ELSE x : x \in S}
 MCNew == {[maxrate |-> e, ct |-> c, sopt |-> s, est |-> x, relay |-> Relay] :
             e \in Ends, c \in Cts, s \in Dec(Sopts), x \in Dec(Ests)}
 
-\* input sets as <<totalin, reqout, dust of the change script, parent weight, parent fee>>; InSets selects rows
-InTable == << <<100000, 0, 294, 0, 0>>,       \* plenty of change
-              <<2200, 0, 294, 0, 0>>,         \* change falls below dust while the rate rises: tx without output
-              <<12200, 10000, 294, 0, 0>>,    \* required output + change that falls below dust: absorbed into the fee
-              <<11000, 10000, 294, 0, 0>>,    \* required output, inputs cannot pay the higher rates
-              <<50000, 49000, 330, 0, 0>>,    \* required output nearly everything (wallet top-up too small)
-              <<100330, 0, 294, 724, 0>>,     \* anchor + wallet input, unconfirmed parent that pays nothing
-              <<100330, 0, 294, 1116, 335>> >> \* ... parent at 300 sat/kw: above the first rates, below the later ones
+\* input sets as <<totalin, reqout, dust of the change script, parent weight, parent fee, aux extra output, aux extra
+\* budget>>; InSets selects rows
+InTable == << <<100000, 0, 294, 0, 0, 0, 0>>,       \* plenty of change
+              <<2200, 0, 294, 0, 0, 0, 0>>,         \* change falls below dust while the rate rises: tx without output
+              <<12200, 10000, 294, 0, 0, 0, 0>>,    \* required output + change that falls below dust: absorbed into the fee
+              <<11000, 10000, 294, 0, 0, 0, 0>>,    \* required output, inputs cannot pay the higher rates
+              <<50000, 49000, 330, 0, 0, 0, 0>>,    \* required output nearly everything (wallet top-up too small)
+              <<100330, 0, 294, 724, 0, 0, 0>>,     \* anchor + wallet input, unconfirmed parent that pays nothing
+              <<100330, 0, 294, 1116, 335, 0, 0>>,  \* ... parent at 300 sat/kw: above the first rates, below the later ones
+              <<100000, 0, 294, 0, 0, 1000, 3>>,    \* custom-channel input: aux extra output of 1000 sat, extra budget 3
+              <<2600, 0, 294, 0, 0, 330, 0>> >>     \* ... whose change falls below dust: absorbed, the extra output remains
 MCReq == {SweepReq([maxvb |-> m, relay |-> Relay, est |-> x],
                    [weight |-> w, totalin |-> i[1], reqout |-> i[2], dust |-> i[3], inbudget |-> b,
                     indeadline |-> H0 + Conf0, prevmax |-> IF s > 0 THEN s ELSE 0,
-                    pweight |-> i[4], pfee |-> i[5]]) :
+                    pweight |-> i[4], pfee |-> i[5], xout |-> i[6], xbudget |-> i[7]]) :
             b \in Budgets, w \in Weights, m \in MaxVbs, i \in {InTable[k] : k \in InSets}, s \in Dec(Sopts), x \in Dec(Ests)}
 
 MCHeights == H0..(H0 + Conf0 + 1)
+\* a far deadline: the first blocks and the last ones
+MCFarHeights == {H0, H0 + 1, H0 + Conf0 - 2, H0 + Conf0 - 1, H0 + Conf0, H0 + Conf0 + 1}
 MCConf == IF ConfSet = {} THEN 0..((CHOOSE m \in Cts : \A c \in Cts : c <= m) + 1) ELSE ConfSet
 Empty == {}
 =============================================================================
